@@ -234,7 +234,7 @@ func runDawg(w *tr.W, in dawgIn, prop string) {
 
 // runGob: b1 = GobEncode(d); d2 via GobDecode; d3 via encoding/gob; b2 = GobEncode(d2).
 func runGob(w *tr.W, d *dawg.Dawg, in dawgIn) {
-	var b1, b2 []byte
+	var b1, b2, snap []byte
 	var e1, e2, e3, e4 error
 	d2 := new(dawg.Dawg)
 	d3 := new(dawg.Dawg)
@@ -247,7 +247,8 @@ func runGob(w *tr.W, d *dawg.Dawg, in dawgIn) {
 		if e1 != nil {
 			return
 		}
-		e2 = d2.GobDecode(append([]byte{}, b1...))
+		snap = append([]byte{}, b1...) // the bytes as returned; b1 itself is kept and compared again after other Dawgs were encoded
+		e2 = d2.GobDecode(append([]byte{}, snap...))
 		if e2 != nil {
 			return
 		}
@@ -264,7 +265,8 @@ func runGob(w *tr.W, d *dawg.Dawg, in dawgIn) {
 		}
 		// decode into a receiver that already holds another automaton (with the empty word): GobDecode replaces its contents
 		d4, _ := dawg.New([][]byte{{}, {120}, {120, 121}})
-		e5 = d4.GobDecode(append([]byte{}, b1...))
+		d4.GobEncode() // a different, small automaton encoded while b1 is still held by its caller
+		e5 = d4.GobDecode(append([]byte{}, snap...))
 		if e5 == nil {
 			nodes4 = nodeTable(d4)
 		}
@@ -279,12 +281,12 @@ func runGob(w *tr.W, d *dawg.Dawg, in dawgIn) {
 		}
 		return e.Error()
 	}
-	bytesOut := b2i(b1)
+	bytesOut := b2i(snap)
 	if len(bytesOut) > 6000 {
 		bytesOut = []int{}
 	}
 	w.Emit(tr.E{"ev": "Gob", "res": res, "b1": bytesOut, "b1len": len(b1), "enc_err": errs(e1), "dec_err": errs(e2), "enc2_err": errs(e3), "gob_err": errs(e4),
-		"same_bytes": bytes.Equal(b1, b2), "nodes2": nodes2, "nodes3": nodes3, "nwords2": nw2, "lookups2": lookups, "nodes1": nodeTable(d), "nodes4": nodes4, "dec4_err": errs(e5)})
+		"same_bytes": bytes.Equal(snap, b2), "b1_stable": bytes.Equal(b1, snap), "nodes2": nodes2, "nodes3": nodes3, "nwords2": nw2, "lookups2": lookups, "nodes1": nodeTable(d), "nodes4": nodes4, "dec4_err": errs(e5)})
 }
 
 // ---- word set families ----
